@@ -9,11 +9,11 @@ Open Scope Z_scope.
 Definition Inv (st : tstate) (q : queue) (o : outcome) : Prop :=
   (forall acc f, o = ODone acc f -> q_instr q = false /\ forall st', trun st (q_toks q) = Some st' -> tfinal st' = true) /\
   (forall acc n toks k, o = OSusp acc n toks k -> forall st', trun st (q_toks q) = Some st' ->
-     (length toks <= n)%nat /\ exists sts, trun sts toks = Some st' /\ sunf sts = true) /\
+     (length toks <= n)%nat /\ sunf st' = true /\ exists sts, trun sts toks = Some st' /\ sunf sts = true) /\
   (forall acc f, o = OMoreTop acc f -> q_instr q = true).
 
 Definition KI (d : Z) (k : sexp -> queue -> outcome) : Prop :=
-  forall e q sg, is_send e = false -> curly_plain (q_toks q) = true -> Inv (d, WFree, false, sg) q (k e q).
+  forall e q sg, is_send e = false -> bc_ok (q_toks q) = true -> Inv (d, WFree, false, sg) q (k e q).
 
 Lemma inv_triv : forall st q o, (forall acc f, o <> ODone acc f) -> (forall acc n t k, o <> OSusp acc n t k) ->
   (forall acc f, o <> OMoreTop acc f) -> Inv st q o.
@@ -22,18 +22,27 @@ Proof. intros st q o H1 H2 H3; split; [|split]; intros; exfalso; [eapply H1|eapp
 Ltac triv := apply inv_triv; intros; discriminate.
 
 Lemma need_inv : forall st acc n q k,
-  sunf st = true -> ((n < length (q_toks q))%nat -> Inv st q (k q)) -> Inv st q (need acc n q k).
+  sunf st = true ->
+  ((length (q_toks q) <= n)%nat -> forall st', trun st (q_toks q) = Some st' -> sunf st' = true) ->
+  ((n < length (q_toks q))%nat -> Inv st q (k q)) -> Inv st q (need acc n q k).
 Proof.
-  intros st acc n q k Hs H. unfold need. destruct (n <? length (q_toks q))%nat eqn:E.
+  intros st acc n q k Hs Hq H. unfold need. destruct (n <? length (q_toks q))%nat eqn:E.
   - apply H. apply Nat.ltb_lt; exact E.
   - destruct (q_err q); [triv|]. split; [|split]; intros; [discriminate| |discriminate].
-    inversion H0; subst. split; [apply Nat.ltb_ge; exact E|]. exists st. split; assumption.
+    inversion H0; subst. apply Nat.ltb_ge in E. split; [exact E|]. split; [apply Hq; assumption|]. exists st. split; assumption.
 Qed.
 
-Lemma cp_tl : forall t r, curly_plain (t :: r) = true -> curly_plain r = true.
+Lemma need_inv0 : forall st acc q k,
+  sunf st = true -> ((0 < length (q_toks q))%nat -> Inv st q (k q)) -> Inv st q (need acc 0 q k).
+Proof.
+  intros st acc q k Hs H. apply need_inv; [exact Hs| |exact H].
+  intros Hl st' Ht. destruct (q_toks q); [simpl in Ht; inversion Ht; subst; exact Hs|simpl in Hl; lia].
+Qed.
+
+Lemma cp_tl : forall t r, bc_ok (t :: r) = true -> bc_ok r = true.
 Proof. intros t r H; simpl in H. apply andb_prop in H; tauto. Qed.
 
-Lemma cp_tail : forall q, curly_plain (q_toks q) = true -> curly_plain (q_toks (q_tail q)) = true.
+Lemma cp_tail : forall q, bc_ok (q_toks q) = true -> bc_ok (q_toks (q_tail q)) = true.
 Proof. intros [l e i] H; simpl in *. destruct l; [exact H|eapply cp_tl; exact H]. Qed.
 
 (* consuming the first token *)
@@ -47,11 +56,11 @@ Proof.
   - eauto.
 Qed.
 
-Lemma pblock_inv : forall f d acc q text k, KI d k -> curly_plain (q_toks q) = true ->
+Lemma pblock_inv : forall f d acc q text k, KI d k -> bc_ok (q_toks q) = true ->
   Inv (d, WBlock, false, false) q (pblock f acc q text k).
 Proof.
   induction f as [|f IH]; intros d acc q text k Hk Hc; [triv|].
-  simpl. apply need_inv; [unfold sunf; destruct (0 <? d); reflexivity|]. intros Hl.
+  simpl. apply need_inv0; [unfold sunf; destruct (0 <? d); reflexivity|]. intros Hl.
   assert (q_toks q <> []) as Hne by (eapply len_ne'; exact Hl).
   destruct (kind_is (tok_at q 0) TEndBlockComment) eqn:K1.
   - eapply inv_step; [exact Hne| |apply Hk; [reflexivity|apply cp_tail; exact Hc]].
@@ -60,10 +69,10 @@ Proof.
     eapply inv_step; [exact Hne| |apply IH; [exact Hk|apply cp_tail; exact Hc]]. simpl. rewrite K2. reflexivity.
 Qed.
 
-Lemma pbacktick_inv : forall d acc q k, KI d k -> curly_plain (q_toks q) = true ->
+Lemma pbacktick_inv : forall d acc q k, KI d k -> bc_ok (q_toks q) = true ->
   Inv (d, WRaw, false, false) q (pbacktick acc q k).
 Proof.
-  intros d acc q k Hk Hc. unfold pbacktick. apply need_inv; [unfold sunf; destruct (0 <? d); reflexivity|]. intros Hl.
+  intros d acc q k Hk Hc. unfold pbacktick. apply need_inv0; [unfold sunf; destruct (0 <? d); reflexivity|]. intros Hl.
   assert (q_toks q <> []) as Hne by (eapply len_ne'; exact Hl).
   destruct (kind_is (tok_at q 0) TBacktickString) eqn:K1; [|triv].
   eapply inv_step; [exact Hne| |apply Hk; [reflexivity|apply cp_tail; exact Hc]]. simpl. rewrite K1. reflexivity.
@@ -77,7 +86,7 @@ Proof.
   intros b st acc q kend k H1 H2. unfold look. destruct (q_toks q) eqn:E.
   - destruct (q_err q); [triv|]. specialize (H2 eq_refl). destruct b; [|exact H2].
     split; [|split]; intros; [discriminate| |discriminate]. inversion H; subst. rewrite E in H0. simpl in H0. inversion H0; subst.
-    split; [simpl; lia|]. exists st'. split; [reflexivity|exact H2].
+    split; [simpl; lia|]. split; [exact H2|]. exists st'. split; [reflexivity|exact H2].
   - apply H1; discriminate.
 Qed.
 
@@ -87,29 +96,200 @@ Proof. intros st q0 q n k H. unfold idx. destruct (nth_error (q_toks q) n); [app
 Lemma inv_push_hash : forall d q o, Inv (d, WFree, false, false) (q_push hash_tok q) o -> Inv (d, WFree, false, false) q o.
 Proof. intros d q o H. exact H. Qed.
 
-Lemma cp_push_hash : forall q, curly_plain (q_toks q) = true -> curly_plain (q_toks (q_push hash_tok q)) = true.
+Lemma cp_push_hash : forall q, bc_ok (q_toks q) = true -> bc_ok (q_toks (q_push hash_tok q)) = true.
 Proof. intros q H. simpl. exact H. Qed.
 
 Lemma sunf_pos : forall d p sg, 1 <= d -> sunf (d, WFree, p, sg) = true.
 Proof. intros d p sg H. unfold sunf. assert (0 <? d = true) as -> by (apply Z.ltb_lt; lia). reflexivity. Qed.
 
+(* ---- the comment-skipping loop of the '{' look-ahead ---- *)
+Lemma trun_app' : forall l1 l2 st, trun st (l1 ++ l2) = match trun st l1 with Some st' => trun st' l2 | None => None end.
+Proof. induction l1 as [|t r IH]; intros l2 st; simpl; [reflexivity|]. destruct (tstep st t); [apply IH|reflexivity]. Qed.
+
+Lemma nth_firstn_S : forall (l : list token) i t, nth_error l i = Some t -> firstn (S i) l = firstn i l ++ [t].
+Proof.
+  induction l as [|x l IH]; intros i t H; destruct i; simpl in *; try discriminate.
+  - inversion H; reflexivity.
+  - rewrite (IH i t H). reflexivity.
+Qed.
+
+Lemma trun_split : forall l st st' n, trun st l = Some st' ->
+  exists st1, trun st (firstn n l) = Some st1 /\ trun st1 (skipn n l) = Some st'.
+Proof.
+  intros l st st' n H. rewrite <- (firstn_skipn n l) in H. rewrite trun_app' in H.
+  destruct (trun st (firstn n l)) as [st1|]; [exists st1; split; [reflexivity|exact H]|discriminate].
+Qed.
+
+Lemma bc_ok_next : forall l i t t2, bc_ok l = true -> nth_error l i = Some t -> kind_is t TBeginBlockComment = true ->
+  nth_error l (S i) = Some t2 -> kind_is t2 TComment = true.
+Proof.
+  induction l as [|x l IH]; intros i t t2 H H1 Hk H2; [destruct i; discriminate|].
+  simpl in H. apply andb_prop in H. destruct H as [Ha Hb]. destruct i; simpl in *.
+  - inversion H1; subst x. rewrite Hk in Ha. destruct l; [discriminate|]. inversion H2; subst. exact Ha.
+  - eapply IH; eauto.
+Qed.
+
+(* the tokens the loop has skipped are comment tokens: the scanner is back at the depth after the brace *)
+Definition Pre (d : Z) (l : list token) (i : nat) : Prop :=
+  forall st', trun (d, WFree, false, false) l = Some st' ->
+  exists a, trun (d, WFree, false, false) (firstn i l) = Some (d, a, false, false) /\ (a = WFree \/ a = WBlock).
+
+Lemma pre_comment : forall d l i t, Pre d l i -> nth_error l i = Some t -> kind_is t TComment = true -> Pre d l (S i).
+Proof.
+  intros d l i t Hp Hn Hk st' H. destruct (Hp st' H) as (a & Ha & Hor).
+  rewrite (nth_firstn_S _ _ _ Hn), trun_app', Ha. simpl.
+  unfold kind_is in Hk. destruct Hor; subst a.
+  - exists WFree. split; [|left; reflexivity]. unfold is_sign, kind_is. destruct (t_kind t); try discriminate. reflexivity.
+  - exists WBlock. split; [|right; reflexivity]. unfold kind_is. destruct (t_kind t); try discriminate. reflexivity.
+Qed.
+
+Lemma pre_begin : forall d l i t x1 x2, Pre d l i -> bc_ok l = true ->
+  nth_error l i = Some t -> kind_is t TBeginBlockComment = true ->
+  nth_error l (S i) = Some x1 -> nth_error l (S (S i)) = Some x2 -> Pre d l (S (S (S i))).
+Proof.
+  intros d l i t x1 x2 Hp Hb Hn Hk Hn1 Hn2 st' H. destruct (Hp st' H) as (a & Ha & Hor).
+  destruct (trun_split _ _ _ (S (S (S i))) H) as (st3 & H3 & _).
+  rewrite (nth_firstn_S _ _ _ Hn2), (nth_firstn_S _ _ _ Hn1), (nth_firstn_S _ _ _ Hn) in *.
+  rewrite <- !app_assoc in *. simpl app in *. rewrite trun_app' in *. rewrite Ha in *.
+  pose proof (bc_ok_next _ _ _ _ Hb Hn Hk Hn1) as Hc1.
+  unfold kind_is in Hk, Hc1. simpl in *.
+  destruct Hor; subst a; simpl in *.
+  - destruct (t_kind t) eqn:Kt; try discriminate. simpl in *.
+    unfold kind_is in *. destruct (t_kind x1) eqn:K1; try discriminate. simpl in *.
+    destruct (t_kind x2) eqn:K2; unfold kind_is in *; rewrite ?K2 in *; simpl in *; try discriminate.
+    + exists WBlock. split; [reflexivity|right; reflexivity].
+    + exists WFree. split; [reflexivity|left; reflexivity].
+  - unfold kind_is in *. destruct (t_kind t) eqn:Kt; try discriminate.
+Qed.
+
+Lemma sunf_pos_any : forall d a p sg, 1 <= d -> sunf (d, a, p, sg) = true.
+Proof. intros d a p sg H. unfold sunf. assert (0 <? d = true) as -> by (apply Z.ltb_lt; lia). reflexivity. Qed.
+
+(* when the look-ahead runs out of tokens after the skipped comments, what is queued (the token it
+   looked at and at most two more) leaves the scanner unfinished: at the depth after the brace *)
+Lemma tail_sunf : forall d l i tok2 m,
+  1 <= d -> bc_ok l = true -> Pre d l i -> nth_error l i = Some tok2 -> (length l <= S i + m)%nat ->
+  (kind_is tok2 TBeginBlockComment = true /\ (m <= 2)%nat \/
+   kind_is tok2 TBeginBacktickString = true /\ (m <= 1)%nat \/
+   (kind_is tok2 TComment = true \/ kind_is tok2 TSymbolColon = true \/ kind_is tok2 TString = true) /\ m = 0%nat) ->
+  forall st', trun (d, WFree, false, false) l = Some st' -> sunf st' = true.
+Proof.
+  intros d l i tok2 m Hd Hb Hp Hn Hlen Hk st' Ht.
+  destruct (Hp st' Ht) as (a & Ha & Hor).
+  destruct (trun_split _ _ _ (S i) Ht) as (st1 & H1 & H2).
+  rewrite (nth_firstn_S _ _ _ Hn), trun_app', Ha in H1. simpl in H1.
+  assert (length (skipn (S i) l) <= m)%nat as Hsk by (rewrite skipn_length; lia).
+  assert (S i <= length l)%nat as Hil by (apply nth_error_Some; rewrite Hn; discriminate).
+  destruct Hk as [[Kb Hm]|[[Kt Hm]|[Kc Hm]]].
+  - (* block comment begins *)
+    destruct Hor; subst a; simpl in H1; unfold kind_is in Kb.
+    + destruct (t_kind tok2) eqn:K2; try discriminate. inversion H1; subst st1. clear H1.
+      destruct (skipn (S i) l) as [|x1 r1] eqn:Es; [simpl in H2; inversion H2; subst; apply sunf_pos_any; exact Hd|].
+      assert (nth_error l (S i) = Some x1) as Hx1.
+      { rewrite <- (firstn_skipn (S i) l). rewrite nth_error_app2; rewrite firstn_length_le; try lia.
+        replace (S i - S i)%nat with 0%nat by lia. rewrite Es. reflexivity. }
+      assert (kind_is x1 TComment = true) as Kx1 by (apply (bc_ok_next l i tok2 x1 Hb Hn); [unfold kind_is; rewrite K2; reflexivity|exact Hx1]).
+      simpl in H2. rewrite Kx1 in H2.
+      destruct r1 as [|x2 r2]; [simpl in H2; inversion H2; subst; apply sunf_pos_any; exact Hd|].
+      destruct r2; [|simpl in Hsk; lia]. simpl in H2.
+      destruct (kind_is x2 TComment); [inversion H2; subst; apply sunf_pos_any; exact Hd|].
+      destruct (kind_is x2 TEndBlockComment); [inversion H2; subst; apply sunf_pos_any; exact Hd|discriminate].
+    + unfold kind_is in H1. destruct (t_kind tok2); try discriminate.
+  - (* raw string begins *)
+    destruct Hor; subst a; simpl in H1; unfold kind_is in Kt.
+    + destruct (t_kind tok2) eqn:K2; try discriminate. inversion H1; subst st1. clear H1.
+      destruct (skipn (S i) l) as [|x1 r1]; [simpl in H2; inversion H2; subst; apply sunf_pos_any; exact Hd|].
+      destruct r1; [|simpl in Hsk; lia]. simpl in H2.
+      destruct (kind_is x1 TBacktickString); [inversion H2; subst; apply sunf_pos_any; exact Hd|discriminate].
+    + unfold kind_is in H1. destruct (t_kind tok2); try discriminate.
+  - (* a comment, a symbol with colon, a string: nothing queued behind it *)
+    subst m. destruct (skipn (S i) l); [|simpl in Hsk; lia]. simpl in H2. inversion H2; subst st'. clear H2.
+    unfold kind_is in Kc.
+    destruct Hor; subst a; simpl in H1; unfold kind_is in H1;
+      destruct (t_kind tok2); try discriminate; try (destruct Kc as [Kc|[Kc|Kc]]; discriminate);
+      inversion H1; subst; apply sunf_pos_any; exact Hd.
+Qed.
+
+Definition J (d : Z) (q : queue) (tok2 : token) (extra : nat) : Prop :=
+  exists i, extra = S i /\ nth_error (q_toks q) i = Some tok2 /\ Pre d (q_toks q) i.
+
+Definition K3I (d : Z) (k3 : queue -> token -> nat -> outcome) : Prop :=
+  forall q tok2 extra, bc_ok (q_toks q) = true -> J d q tok2 extra -> Inv (d, WFree, false, false) q (k3 q tok2 extra).
+
+Lemma idx_inv' : forall st q0 q n k, (forall t, nth_error (q_toks q) n = Some t -> Inv st q0 (k t)) -> Inv st q0 (idx q n k).
+Proof. intros st q0 q n k H. unfold idx. destruct (nth_error (q_toks q) n) eqn:E; [apply H; reflexivity|triv]. Qed.
+
+Lemma curly_skip_inv : forall f d acc q tok2 extra k3,
+  1 <= d -> bc_ok (q_toks q) = true -> J d q tok2 extra -> K3I d k3 ->
+  Inv (d, WFree, false, false) q (curly_skip f acc q tok2 extra k3).
+Proof.
+  induction f as [|f IH]; intros d acc q tok2 extra k3 Hd Hb HJ Hk; [triv|].
+  assert (sunf (d, WFree, false, false) = true) as Hs by (apply sunf_pos; exact Hd).
+  destruct HJ as (i & -> & Hn & Hp). simpl.
+  destruct (kind_is tok2 TBeginBlockComment) eqn:KB.
+  - apply need_inv; [exact Hs| |].
+    { intros Hl st' Ht. apply (tail_sunf d (q_toks q) i tok2 2 Hd Hb Hp Hn); [simpl in *; lia|left; split; [exact KB|lia]|exact Ht]. }
+    intros _. apply idx_inv'. intros t2 Hn2.
+    assert (nth_error (q_toks q) (S (S (S i))) = Some t2) as Hn2' by (rewrite <- Hn2; f_equal; lia). clear Hn2. rename Hn2' into Hn2.
+    (* the two tokens between *)
+    destruct (nth_error (q_toks q) (S i)) as [x1|] eqn:E1;
+      [|exfalso; apply nth_error_None in E1; assert (S (S (S i)) < length (q_toks q))%nat by (apply nth_error_Some; rewrite Hn2; discriminate); lia].
+    destruct (nth_error (q_toks q) (S (S i))) as [x2|] eqn:E2;
+      [|exfalso; apply nth_error_None in E2; assert (S (S (S i)) < length (q_toks q))%nat by (apply nth_error_Some; rewrite Hn2; discriminate); lia].
+    pose proof (pre_begin _ _ _ _ _ _ Hp Hb Hn KB E1 E2) as Hp3.
+    destruct (kind_is t2 TComment) eqn:KC.
+    + apply need_inv; [exact Hs| |].
+      { intros Hl st' Ht. apply (tail_sunf d (q_toks q) (S (S (S i))) t2 0 Hd Hb Hp3 Hn2); [simpl in *; lia|right; right; split; [left; exact KC|reflexivity]|exact Ht]. }
+      intros _. apply idx_inv'. intros t3 Hn3.
+      assert (nth_error (q_toks q) (S (S (S (S i)))) = Some t3) as Hn3' by (rewrite <- Hn3; f_equal; lia). clear Hn3. rename Hn3' into Hn3.
+      match goal with |- Inv _ _ (curly_skip f acc q t3 ?e k3) => replace e with (S (S (S (S (S i))))) by lia end.
+      apply IH; [exact Hd|exact Hb| |exact Hk].
+      exists (S (S (S (S i)))). split; [reflexivity|]. split; [exact Hn3|]. eapply pre_comment; eauto.
+    + match goal with |- Inv _ _ (curly_skip f acc q t2 ?e k3) => replace e with (S (S (S (S i)))) by lia end.
+      apply IH; [exact Hd|exact Hb| |exact Hk].
+      exists (S (S (S i))). split; [reflexivity|]. split; [exact Hn2|exact Hp3].
+  - destruct (kind_is tok2 TComment) eqn:KC.
+    + apply need_inv; [exact Hs| |].
+      { intros Hl st' Ht. apply (tail_sunf d (q_toks q) i tok2 0 Hd Hb Hp Hn); [simpl in *; lia|right; right; split; [left; exact KC|reflexivity]|exact Ht]. }
+      intros _. apply idx_inv'. intros t3 Hn3.
+      match goal with |- Inv _ _ (curly_skip f acc q t3 ?e k3) => replace e with (S (S i)) by lia end.
+      apply IH; [exact Hd|exact Hb| |exact Hk].
+      exists (S i). split; [reflexivity|]. split; [exact Hn3|]. eapply pre_comment; eauto.
+    + apply Hk; [exact Hb|]. exists i. repeat split; assumption.
+Qed.
+
+(* dropping tokens the scanner passes over *)
+Lemma inv_drop : forall st st2 q n o,
+  (forall st', trun st (q_toks q) = Some st' -> trun st2 (skipn n (q_toks q)) = Some st') ->
+  Inv st2 (q_drop n q) o -> Inv st q o.
+Proof.
+  intros st st2 q n o H [H1 [H2 H3]]. split; [|split]; intros.
+  - destruct (H1 _ _ H0) as [I F]. split; [exact I|]. intros st' Ht. apply F. simpl. apply H; exact Ht.
+  - apply (H2 _ _ _ _ H0). simpl. apply H; exact H4.
+  - apply (H3 _ _ H0).
+Qed.
+
+Lemma bc_ok_skipn : forall n l, bc_ok l = true -> bc_ok (skipn n l) = true.
+Proof.
+  induction n as [|n IH]; intros l H; simpl; [exact H|]. destruct l as [|t r]; [reflexivity|]. apply IH. eapply cp_tl; exact H.
+Qed.
+
 Section Unf.
-Variable c : bool.
 
 Definition Iexpr (f : nat) : Prop := forall d p sg acc top q k,
-  0 <= d -> curly_plain (q_toks q) = true -> KI d k ->
+  0 <= d -> bc_ok (q_toks q) = true -> KI d k ->
   (top = false -> 1 <= d \/ p = true) ->
   (top = true -> q_toks q = [] -> Inv (d, WFree, p, sg) q (k SEnd q)) ->
-  Inv (d, WFree, p, sg) q (pexpr true c f acc top q k).
+  Inv (d, WFree, p, sg) q (pexpr true true f acc top q k).
 Definition Ilist (f : nat) : Prop := forall d sg acc q endk k,
-  1 <= d -> (endk = TRParen \/ endk = TRCurly) -> curly_plain (q_toks q) = true -> KI (d - 1) k ->
-  Inv (d, WFree, false, sg) q (plist true c f acc q endk k).
+  1 <= d -> (endk = TRParen \/ endk = TRCurly) -> bc_ok (q_toks q) = true -> KI (d - 1) k ->
+  Inv (d, WFree, false, sg) q (plist true true f acc q endk k).
 Definition Iarray (f : nat) : Prop := forall d sg acc q arr k,
-  1 <= d -> curly_plain (q_toks q) = true -> KI (d - 1) k ->
-  Inv (d, WFree, false, sg) q (parray true c f acc q arr k).
+  1 <= d -> bc_ok (q_toks q) = true -> KI (d - 1) k ->
+  Inv (d, WFree, false, sg) q (parray true true f acc q arr k).
 Definition Iinfix (f : nat) : Prop := forall d sg acc q arr k,
-  1 <= d -> curly_plain (q_toks q) = true -> KI (d - 1) k ->
-  Inv (d, WFree, false, sg) q (pinfix true c f acc q arr k).
+  1 <= d -> bc_ok (q_toks q) = true -> KI (d - 1) k ->
+  Inv (d, WFree, false, sg) q (pinfix true true f acc q arr k).
 
 Lemma KI_shift : forall d k, KI d k -> KI (d + 1 - 1) k.
 Proof. intros d k H. replace (d + 1 - 1) with d by lia. exact H. Qed.
@@ -125,7 +305,7 @@ Proof.
           - apply Hend; [reflexivity|exact Hnil].
           - destruct (Hnt eq_refl) as [H|H]; [apply sunf_pos; exact H|subst p; unfold sunf; destruct (0 <? d); reflexivity]. }
       intros Hne.
-      assert (curly_plain (q_toks (q_tail q)) = true) as Hc1 by (apply cp_tail; exact Hc).
+      assert (bc_ok (q_toks (q_tail q)) = true) as Hc1 by (apply cp_tail; exact Hc).
       assert (forall name, KI d (fun e q2 => k (list2 (sym name) e) q2)) as Hsug
         by (intros name e q2 sg2 He H2; apply Hk; [reflexivity|exact H2]).
       assert (forall e sg2, is_send e = false -> Inv (d, WFree, false, sg2) (q_tail q) (k e (q_tail q))) as Hk1
@@ -144,30 +324,41 @@ Proof.
       + (* TLCurly *)
         eapply inv_step; [exact Hne|unfold tstep; rewrite K; reflexivity|].
         assert (sunf (d + 1, WFree, false, false) = true) as Hs1 by (apply sunf_pos; lia).
-        apply need_inv; [exact Hs1|]. intros Hlen.
-        assert (comment_like (tok_at (q_tail q) 0) = false) as Hncl.
-        { destruct q as [l e i]; unfold tok_at in *; simpl in *. destruct l as [|t r]; [congruence|]. simpl in *.
-          unfold kind_is in Hc at 1. rewrite K in Hc. simpl in Hc. destruct r as [|t2 r2]; [simpl in Hlen; lia|].
-          simpl. apply andb_prop in Hc. destruct Hc as [Hc _]. destruct (comment_like t2); [discriminate|reflexivity]. }
-        destruct f as [|f0]; [triv|]. simpl curly_skip.
-        unfold comment_like in Hncl. apply orb_false_elim in Hncl. destruct Hncl as [N1 N2]. rewrite N1, N2.
-        set (q1 := q_tail q) in *.
-        assert (Inv (d + 1, WFree, false, false) q1 (pinfix true c (S f0) acc q1 [] k)) as Hinf
-          by (apply IHi; [lia|exact Hc1|apply KI_shift; exact Hk]).
-        assert (Inv (d + 1, WFree, false, false) q1 (plist true c (S f0) acc (q_push hash_tok q1) TRCurly k)) as Hhash.
-        { apply inv_push_hash. apply IHl; [lia|right; reflexivity|apply cp_push_hash; exact Hc1|apply KI_shift; exact Hk]. }
-        destruct (t_kind (tok_at q1 0)) eqn:K2; try exact Hinf.
-        * (* TRCurly *)
-          assert (q_toks q1 <> []) as Hne1 by (eapply len_ne'; exact Hlen).
-          replace (if c then q_drop 1 q1 else q_tail q1) with (q_tail q1)
-            by (destruct c; [|reflexivity]; unfold q_drop, q_tail; destruct (q_toks q1); reflexivity).
-          eapply inv_step; [exact Hne1|unfold tstep; rewrite K2; reflexivity|].
-          replace (d + 1 - 1) with d by lia. apply Hk; [reflexivity|apply cp_tail; exact Hc1].
-        * apply need_inv; [exact Hs1|]. intros _. apply idx_inv. intros t2.
+        apply need_inv0; [exact Hs1|]. intros Hlen.
+        assert (q_toks (q_tail q) <> []) as Hne1 by (eapply len_ne'; exact Hlen).
+        apply curly_skip_inv; [lia|exact Hc1| |].
+        { exists 0%nat. split; [reflexivity|]. split.
+          - unfold tok_at. destruct (q_toks (q_tail q)); [congruence|reflexivity].
+          - intros st' _. exists WFree. split; [reflexivity|left; reflexivity]. }
+        red. intros q3 tok2 extra Hc3 (i & -> & Hn & Hp).
+        assert (Inv (d + 1, WFree, false, false) q3 (pinfix true true f acc q3 [] k)) as Hinf
+          by (apply IHi; [lia|exact Hc3|apply KI_shift; exact Hk]).
+        assert (Inv (d + 1, WFree, false, false) q3 (plist true true f acc (q_push hash_tok q3) TRCurly k)) as Hhash.
+        { apply inv_push_hash. apply IHl; [lia|right; reflexivity|apply cp_push_hash; exact Hc3|apply KI_shift; exact Hk]. }
+        destruct (t_kind tok2) eqn:K2; try exact Hinf.
+        * (* TRCurly: the skipped comments and the brace are dropped *)
+          apply (inv_drop _ (d, WFree, false, false) _ (S i)).
+          -- intros st' Ht. destruct (Hp st' Ht) as (a & Ha & Hor).
+             destruct (trun_split _ _ _ (S i) Ht) as (st1 & H1 & H2).
+             rewrite (nth_firstn_S _ _ _ Hn), trun_app', Ha in H1. simpl in H1.
+             destruct Hor; subst a; simpl in H1.
+             ++ rewrite K2 in H1. inversion H1; subst. replace (d + 1 - 1) with d in H2 by lia. exact H2.
+             ++ unfold kind_is in H1. rewrite K2 in H1. simpl in H1. discriminate.
+          -- apply Hk; [reflexivity|]. unfold q_drop; cbn [q_toks]. apply bc_ok_skipn; exact Hc3.
+        * apply need_inv; [exact Hs1| |].
+          { intros Hl st' Ht. apply (tail_sunf (d + 1) (q_toks q3) i tok2 0 ltac:(lia) Hc3 Hp Hn); [simpl in *; lia| |exact Ht].
+            right; right; split; [right; right; unfold kind_is; rewrite K2; reflexivity|reflexivity]. }
+          intros _. apply idx_inv. intros t2.
           destruct (kind_is t2 TColonOperator); assumption.
-        * apply need_inv; [exact Hs1|]. intros _. apply idx_inv. intros t2. apply idx_inv. intros t3.
+        * apply need_inv; [exact Hs1| |].
+          { intros Hl st' Ht. apply (tail_sunf (d + 1) (q_toks q3) i tok2 1 ltac:(lia) Hc3 Hp Hn); [simpl in *; lia| |exact Ht].
+            right; left; split; [unfold kind_is; rewrite K2; reflexivity|lia]. }
+          intros _. apply idx_inv. intros t2. apply idx_inv. intros t3.
           destruct (kind_is t2 TBacktickString && kind_is t3 TColonOperator); assumption.
-        * apply need_inv; [exact Hs1|]. intros _. apply idx_inv. intros t2.
+        * apply need_inv; [exact Hs1| |].
+          { intros Hl st' Ht. apply (tail_sunf (d + 1) (q_toks q3) i tok2 0 ltac:(lia) Hc3 Hp Hn); [simpl in *; lia| |exact Ht].
+            right; right; split; [right; left; unfold kind_is; rewrite K2; reflexivity|reflexivity]. }
+          intros _. apply idx_inv. intros t2.
           destruct (kind_is t2 TSymbol && list_eqb (t_str t2) str_for); assumption.
       + (* TSymbol *)
         eapply inv_step; [exact Hne|unfold tstep; rewrite K; reflexivity|].
@@ -175,7 +366,7 @@ Proof.
           by (unfold is_sign, kind_is; rewrite K; reflexivity).
         rewrite Hsg.
         destruct (list_eqb (t_str (tok_at q 0)) [45] || list_eqb (t_str (tok_at q 0)) [43]).
-        * apply need_inv; [unfold sunf; destruct (0 <? d); reflexivity|]. intros Hl.
+        * apply need_inv0; [unfold sunf; destruct (0 <? d); reflexivity|]. intros Hl.
           assert (q_toks (q_tail q) <> []) as Hne1 by (eapply len_ne'; exact Hl).
           destruct (kind_is (tok_at (q_tail q) 0) TFloat &&
                     (list_eqb (t_str (tok_at (q_tail q) 0)) str_Inf || list_eqb (t_str (tok_at (q_tail q) 0)) str_inf)) eqn:KF.
@@ -202,15 +393,15 @@ Proof.
         destruct (length _ <? 3)%nat; [triv|]. destruct (conv_uint64 _); [apply Hk1; reflexivity|triv]. }
     assert (Ilist (S f)) as HL.
     { red. intros d sg acc q endk k Hd He Hc Hk. simpl plist.
-      apply need_inv; [apply sunf_pos; exact Hd|]. intros Hlen.
+      apply need_inv0; [apply sunf_pos; exact Hd|]. intros Hlen.
       assert (q_toks q <> []) as Hne by (eapply len_ne'; exact Hlen).
       destruct (kind_is (tok_at q 0) endk) eqn:KE.
       - eapply inv_step; [exact Hne| |apply Hk; [reflexivity|apply cp_tail; exact Hc]].
         unfold kind_is in KE. unfold tstep. destruct He; subst endk; destruct (t_kind (tok_at q 0)); try discriminate; reflexivity.
       - apply IHe; [lia|exact Hc| |intros _; left; exact Hd|discriminate].
         red. intros head q2 sg2 Hh Hc2.
-        assert (forall q5 sg5, curly_plain (q_toks q5) = true ->
-                Inv (d, WFree, false, sg5) q5 (plist true c f acc q5 endk (fun tl q' => k (SPair head tl) q'))) as Hrest.
+        assert (forall q5 sg5, bc_ok (q_toks q5) = true ->
+                Inv (d, WFree, false, sg5) q5 (plist true true f acc q5 endk (fun tl q' => k (SPair head tl) q'))) as Hrest.
         { intros q5 sg5 H5. apply IHl; [exact Hd|exact He|exact H5|].
           red. intros tl q6 sg6 _ H6. apply Hk; [reflexivity|exact H6]. }
         apply look_inv; [|intros _; apply sunf_pos; exact Hd].
@@ -225,7 +416,7 @@ Proof.
         unfold kind_is in KR. unfold tstep. destruct (t_kind (tok_at q4 0)); try discriminate; reflexivity. }
     assert (Iarray (S f)) as HA.
     { red. intros d sg acc q arr k Hd Hc Hk. simpl parray.
-      apply need_inv; [apply sunf_pos; exact Hd|]. intros Hlen.
+      apply need_inv0; [apply sunf_pos; exact Hd|]. intros Hlen.
       assert (q_toks q <> []) as Hne by (eapply len_ne'; exact Hlen).
       destruct (kind_is (tok_at q 0) TComma) eqn:K1.
       - eapply inv_step; [exact Hne| |apply IHa; [exact Hd|apply cp_tail; exact Hc|exact Hk]].
@@ -237,7 +428,7 @@ Proof.
           red. intros e q2 sg2 _ H2. apply IHa; assumption. }
     assert (Iinfix (S f)) as HI.
     { red. intros d sg acc q arr k Hd Hc Hk. simpl pinfix.
-      apply need_inv; [apply sunf_pos; exact Hd|]. intros Hlen.
+      apply need_inv0; [apply sunf_pos; exact Hd|]. intros Hlen.
       assert (q_toks q <> []) as Hne by (eapply len_ne'; exact Hlen).
       destruct (kind_is (tok_at q 0) TRCurly) eqn:K2.
       - eapply inv_step; [exact Hne| |apply Hk; [reflexivity|apply cp_tail; exact Hc]].
@@ -250,10 +441,10 @@ Qed.
 End Unf.
 
 
-Lemma ptop_inv : forall c f acc q sg, curly_plain (q_toks q) = true -> Inv (0, WFree, false, sg) q (ptop true c f acc q).
+Lemma ptop_inv : forall f acc q sg, bc_ok (q_toks q) = true -> Inv (0, WFree, false, sg) q (ptop true true f acc q).
 Proof.
   induction f as [|f IH]; intros acc q sg Hc; [triv|].
-  simpl ptop. apply (proj1 (main_inv c f)); [lia|exact Hc| |discriminate|].
+  simpl ptop. apply (proj1 (main_inv f)); [lia|exact Hc| |discriminate|].
   - red. intros e q' sg' He Hc'. rewrite He. apply IH; exact Hc'.
   - intros _ Hnil. simpl. destruct (q_instr q) eqn:Ei; [split; [|split]; intros; try discriminate; exact Ei|].
     split; [|split]; intros; [|discriminate|discriminate]. split; [exact Ei|]. intros st' Ht. rewrite Hnil in Ht. simpl in Ht. inversion Ht; subst. reflexivity.
@@ -263,9 +454,9 @@ Qed.
 From ZV Require Import Proofs.LexerProofs.
 
 
-Lemma parse_whole_ptop : forall c fuel text,
-  parse_whole true c fuel text =
-  ptop true c fuel [] (mkQ (text_tokens text) (negb (lres_ok (lex_all init_lstate (text ++ nl))))
+Lemma parse_whole_ptop : forall fuel text,
+  parse_whole true true fuel text =
+  ptop true true fuel [] (mkQ (text_tokens text) (negb (lres_ok (lex_all init_lstate (text ++ nl))))
                            (in_string_or_rune (lres_state (lex_all init_lstate (text ++ nl))))).
 Proof.
   intros. unfold parse_whole, parse_after, p_deliver, p_reset, p_init, text_tokens. cbn [ps_lex ps_out resume].
@@ -273,13 +464,13 @@ Proof.
 Qed.
 
 (* (A) a text the parser accepts as complete is not an unfinished prefix *)
-Theorem done_implies_finished : forall c fuel text acc f st,
-  parse_whole true c fuel text = ODone acc f ->
-  curly_plain (text_tokens text) = true ->
+Theorem done_implies_finished : forall fuel text acc f st,
+  parse_whole true true fuel text = ODone acc f ->
+  bc_ok (text_tokens text) = true ->
   trun st0 (text_tokens text) = Some st -> tfinal st = true.
 Proof.
-  intros c fuel text acc f st H Hc Ht. rewrite parse_whole_ptop in H.
-  match type of H with ptop _ _ _ _ ?q = _ => destruct (ptop_inv c fuel [] q false Hc) as [H1 _] end.
+  intros fuel text acc f st H Hc Ht. rewrite parse_whole_ptop in H.
+  match type of H with ptop _ _ _ _ ?q = _ => destruct (ptop_inv fuel [] q false Hc) as [H1 _] end.
   eapply (proj2 (H1 _ _ H)); exact Ht.
 Qed.
 
@@ -287,34 +478,34 @@ Qed.
    the tokens consumed when the parser suspends (all but the queued toks) leave the scanner in an
    unfinished state (depth > 0, inside a block comment / raw string, reader prefix pending) or
    right after the symbol - / + *)
-Theorem more_implies_unfinished : forall c fuel text acc n toks k st,
-  parse_whole true c fuel text = OSusp acc n toks k ->
-  curly_plain (text_tokens text) = true ->
+Theorem more_implies_unfinished : forall fuel text acc n toks k st,
+  parse_whole true true fuel text = OSusp acc n toks k ->
+  bc_ok (text_tokens text) = true ->
   trun st0 (text_tokens text) = Some st ->
-  (length toks <= n)%nat /\ exists sts, trun sts toks = Some st /\ sunf sts = true.
+  (length toks <= n)%nat /\ sunf st = true /\ exists sts, trun sts toks = Some st /\ sunf sts = true.
 Proof.
-  intros c fuel text acc n toks k st H Hc Ht. rewrite parse_whole_ptop in H.
-  match type of H with ptop _ _ _ _ ?q = _ => destruct (ptop_inv c fuel [] q false Hc) as [_ [H2 _]] end.
+  intros fuel text acc n toks k st H Hc Ht. rewrite parse_whole_ptop in H.
+  match type of H with ptop _ _ _ _ ?q = _ => destruct (ptop_inv fuel [] q false Hc) as [_ [H2 _]] end.
   eapply H2; [exact H|exact Ht].
 Qed.
 
 
 (* a text accepted as complete does not end inside a string or char literal *)
-Theorem done_not_in_literal : forall c fuel text acc f,
-  parse_whole true c fuel text = ODone acc f -> curly_plain (text_tokens text) = true ->
+Theorem done_not_in_literal : forall fuel text acc f,
+  parse_whole true true fuel text = ODone acc f -> bc_ok (text_tokens text) = true ->
   in_string_or_rune (lres_state (lex_all init_lstate (text ++ nl))) = false.
 Proof.
-  intros c fuel text acc f H Hc. rewrite parse_whole_ptop in H.
-  match type of H with ptop _ _ _ _ ?q = _ => destruct (ptop_inv c fuel [] q false Hc) as [H1 _] end.
+  intros fuel text acc f H Hc. rewrite parse_whole_ptop in H.
+  match type of H with ptop _ _ _ _ ?q = _ => destruct (ptop_inv fuel [] q false Hc) as [H1 _] end.
   exact (proj1 (H1 _ _ H)).
 Qed.
 
 (* the other request for more input: the text ends inside a string or char literal *)
-Theorem more_top_in_literal : forall c fuel text acc f,
-  parse_whole true c fuel text = OMoreTop acc f -> curly_plain (text_tokens text) = true ->
+Theorem more_top_in_literal : forall fuel text acc f,
+  parse_whole true true fuel text = OMoreTop acc f -> bc_ok (text_tokens text) = true ->
   in_string_or_rune (lres_state (lex_all init_lstate (text ++ nl))) = true.
 Proof.
-  intros c fuel text acc f H Hc. rewrite parse_whole_ptop in H.
-  match type of H with ptop _ _ _ _ ?q = _ => destruct (ptop_inv c fuel [] q false Hc) as [_ [_ H3]] end.
+  intros fuel text acc f H Hc. rewrite parse_whole_ptop in H.
+  match type of H with ptop _ _ _ _ ?q = _ => destruct (ptop_inv fuel [] q false Hc) as [_ [_ H3]] end.
   exact (H3 _ _ H).
 Qed.
